@@ -39,6 +39,13 @@ CHECKS = {
  'C12': ('Urls.tla (RFC 3986 5.2) laws model-checked, cross-checked against net/url on every pair; exhaustive (base, ref) enumeration '
          'replayed through two entry points with a recording loader; TLC compares.',
          '6 (C12)', 'TLA+ RFC 3986 oracle (TLC) + exhaustive replay with recording loader'),
+ 'C13': ('RefValue.tla conversion machine model-checked (idempotent canonicalisation, value stable under every conversion); every enumerated '
+         'reference string driven through every conversion program on the real Ref; text, flags and JSON form compared with the TLC-exported '
+         'canonical value after every step.',
+         '6 (C13)', 'TLA+ model checking (TLC) of the conversion machine + replay of every exported behaviour'),
+ 'C20': ('Validations.tla accessor state machine model-checked (LawGetSet, LawClearExact, LawClearIdem) over every keyword subset; every '
+         'state x clear program stepped through the real carriers; every recorded step validated by TLC against the module\'s actions.',
+         '6 (C20)', 'TLA+ model checking (TLC) + replay of TLC-enumerated states/programs + TLC trace validation step by step'),
 }
 
 NA = {
